@@ -217,7 +217,7 @@ fn long_docs(lens: &[usize], dev: usize) -> Vec<(Value, Value)> {
 pub fn run(tier: Tier) -> i32 {
     let mut rep = Report::new("C02", tier);
     crate::engine::start_watchdog("C02", std::time::Duration::from_secs(120));
-    let n = tier.pick(4, 6);
+    let n = tier.pick(5, 6);
     let num_arrays = seqs(&numbers(), n);
     let str_arrays = seqs(&strs(), tier.pick(3, 4));
     let strings4: Vec<String> = strings(&['a', 'é', '€', '😀', '\u{301}'], 4);
@@ -336,7 +336,7 @@ pub fn run(tier: Tier) -> i32 {
         }
     }
     // by-functions, stability
-    let blen = tier.pick(10, 12);
+    let blen = tier.pick(11, 13);
     let s5 = par_sweep(by_docs(blen).chunks(64).map(|c| c.to_vec()).collect(), |chunk: &Vec<Value>, st| {
         for d in chunk {
             for f in ["sort_by(@, &k)", "max_by(@, &k)", "min_by(@, &k)", "sort_by(@, &to_string(k))", "sort_by(@, &length(to_string(k)))", "map(&k, @)"] {
